@@ -16,15 +16,23 @@ type TextQuery struct {
 	Limit    int           `json:"limit"`
 	Weight   *float32      `json:"weight,omitempty"`
 	Filter   *models.Query `json:"filter,omitempty"`
+	Prop     string        `json:"prop,omitempty"` // the text property ("" = gen.PText)
+}
+
+func (q TextQuery) prop() string {
+	if q.Prop != "" {
+		return q.Prop
+	}
+	return gen.PText
 }
 
 func (q TextQuery) ToQuery() models.Query {
-	return models.Query{Property: gen.PText, Text: &models.SearchTextOptions{Value: q.Value, Operator: q.Operator, Limit: q.Limit, Weight: q.Weight, Filter: q.Filter}}
+	return models.Query{Property: q.prop(), Text: &models.SearchTextOptions{Value: q.Value, Operator: q.Operator, Limit: q.Limit, Weight: q.Weight, Filter: q.Filter}}
 }
 
 // CheckText verifies one text answer against the model's current corpus.
 func CheckText(m *model.Collection, q TextQuery, rows []drive.Row) (matching int, err error) {
-	tc := m.TextCorpus(gen.PText)
+	tc := m.TextCorpus(q.prop())
 	terms := model.QueryTerms(q.Value)
 	var fb model.Bounds
 	if q.Filter != nil {
